@@ -47,6 +47,8 @@ def run(tier, seed, replay=None):
                    classify, core.count_lines, timeout=3000, crash_is_violation=True)
     r.gen_validate("tok-random", ["tok", "--mode", "random", "--n", 500 if quick else 8000, "--maxlen", 80, "--chunk", "some", "--opts", "all"] + F,
                    SPEC, CFG, N, classify, core.count_lines, timeout=3000, crash_is_violation=True)
+    r.gen_validate("tok-charref-bounds", ["tok", "--mode", "crbounds", "--chunk", "some", "--opts", "all"] + F, SPEC, CFG, N, classify, core.count_lines,
+                   timeout=3000, crash_is_violation=True)
     r.gen_validate("tok-scaled", ["tok", "--mode", "scaled", "--scale", 20000 if quick else 1000000] + F, SPEC, CFG, 4,
                    classify, core.count_lines, timeout=3000, crash_is_violation=True)
     # parser level (HTML tree builder + RcDom, XML tokenizer + tree builder + RcDom): Trace_Sink with PROP=C04 judges
